@@ -70,7 +70,22 @@ class Proxy:
         object.__setattr__(self, "_obj", obj)
 
     def __getattr__(self, name):
-        return wrap(getattr(object.__getattribute__(self, "_obj"), name))
+        v = getattr(object.__getattribute__(self, "_obj"), name)
+        if callable(v) and not isinstance(v, type):
+            return lambda *a, **k: wrap(v(*[unwrap(x) for x in a], **{kk: unwrap(x) for kk, x in k.items()}))
+        return wrap(v)
+
+
+def unwrap(v):
+    if isinstance(v, Proxy):
+        return object.__getattribute__(v, "_obj")
+    if isinstance(v, R):
+        return float(v)
+    if isinstance(v, tuple):
+        return tuple(unwrap(x) for x in v)
+    if isinstance(v, list):
+        return [unwrap(x) for x in v]
+    return v
 
 
 def wrap(v):
@@ -242,7 +257,8 @@ def check(spec, args):
     post.update({k: wrap(v) for k, v in env.items()})
     post["old"] = {k: wrap(v) for k, v in old.items()}
     for k, v in old.items():
-        post["old_" + k] = wrap(v)
+        if "old_" + k not in post:
+            post["old_" + k] = wrap(v)
     raises = spec.get("raises") or {}
     if raised is None:
         post["result"] = wrap(result)
